@@ -17,6 +17,10 @@ COQ = os.path.join(ROOT, 'coq')
 WORK = os.path.join(ROOT, 'work')
 EVID = os.path.join(ROOT, 'evidence')
 REPLAYS = os.path.join(ROOT, 'replays')
+if os.environ.get('VERIF_SCRATCH'):
+    # exploratory sweeps (other seeds, seeded defects): keep evidence, replays and work files apart
+    _s = os.path.join(ROOT, 'work', 'scratch-' + os.environ['VERIF_SCRATCH'])
+    WORK, EVID, REPLAYS = os.path.join(_s, 'work'), os.path.join(_s, 'evidence'), os.path.join(_s, 'replays')
 NCPU = 16
 DEFAULT_SEED = 20261001
 
